@@ -1,5 +1,16 @@
-(* C04 correspondence: cases as printed by harness/c04 (format: Check.C01_Case). *)
-From Verif Require Export Lib.Base Model.C01_Attester Check.C01_Case.
+(* C04 correspondence: cases as printed by harness/c04: a history in the format of Check.C01_Case,
+   plus -- for the runs whose duty was built by the real attester.MergeDuties -- the beacon node's
+   attester duties given to it and the merged duties read back from the real Duty objects. *)
+From Verif Require Export Lib.Base Model.C01_Attester Model.C04_Merge Check.C01_Case.
+
+Record case := {
+  k_base : C01_Case.case;      (* for a run "from the api", r_duty is the OBSERVED merged duty of its slot
+                                  (an empty duty when MergeDuties produced none for that slot) *)
+  k_api : list api_duty;       (* input: what the beacon node answered (any order) *)
+  k_from : list bool;          (* input: per run, whether its duty is the merged duty of its slot *)
+  k_merged : list duty         (* observed: MergeDuties' result through the accessors of Duty
+                                  (sizes: CommitteeSize of the duty's own committee indices) *)
+}.
 
 (* exists j, vals[j] = v /\ comms[j] = c /\ ok (poss[j]) *)
 Fixpoint assigned (vals comms poss : list N) (v c : N) (ok : N -> bool) : bool :=
@@ -14,7 +25,8 @@ Fixpoint assigned (vals comms poss : list N) (v c : N) (ok : N -> bool) : bool :
      the duty's slot and the root/source/target of the data the beacon node returned;
    - the submitter is called at most once, and only after the signer;
    - the submitted attestations are exactly one per validator of the signing request that was not
-     left unsigned (zero signature => no attestation), each with: the committee index, the
+     left unsigned (zero signature => no attestation) and whose committee, by the duty, is not larger
+     than MAX_VALIDATORS_PER_COMMITTEE (no aggregation bits are allocated for such a duty), each with: the committee index, the
      committee size and the single position bit the duty assigns to that validator (same array
      position j for all three), the duty's slot, the data's root/source/target, and the signature
      that validator's account gave over exactly these values. *)
@@ -50,7 +62,8 @@ Definition run_ok (tr : list event) (i : nat) (r : run) : bool :=
               | Some unsigned =>
                   forallb (att_ok d a) atts &&
                   list_eqb N.eqb (map (fun x => fst (at_sig x)) atts)
-                           (filter (fun v => negb (memb N.eqb v unsigned)) (map fst (sr_pairs q)))
+                           (map fst (filter (fun p => negb (memb N.eqb (fst p) unsigned) &&
+                                                      (size_of d (snd p) <=? max_committee)) (sr_pairs q)))
               | None => false
               end
           | _ => false
@@ -74,8 +87,65 @@ Fixpoint order_ok (seen : list nat) (n : nat) (tr : list event) : bool :=
   | Submit i _ :: tr' => memb Nat.eqb i seen && order_ok seen n tr'
   end.
 
-Definition P_b (c : case) : bool :=
-  order_ok [] (length (c_runs c)) (c_trace c) && runs_ok (c_trace c) 0 (c_runs c).
+(* --- duties built by MergeDuties -------------------------------------------------------------- *)
+(* What the beacon node assigned at slot [s], read off its answer directly (no model involved):
+   the rows of that slot; a committee's size is the CommitteeLength of a row of that committee. *)
+Definition spec_duty (api : list api_duty) (s : N) : duty :=
+  let rows := filter (fun r => ad_slot r =? s) api in
+  {| d_slot := s; d_vals := map ad_val rows; d_comms := map ad_comm rows; d_poss := map ad_pos rows;
+     d_sizes := map (fun r => (ad_comm r, ad_len r)) rows |}.
 
-Definition mismatches (cs : list case) : list N := failing_ids c_id agree cs.
-Definition violations (cs : list case) : list N := failing_ids c_id P_b cs.
+(* the duty the property speaks of: the run's own duty, or the beacon node's rows for its slot *)
+Fixpoint spec_runs (api : list api_duty) (from : list bool) (rs : list run) : list run :=
+  match rs with
+  | [] => []
+  | r :: rs' =>
+      (if hd false from then {| r_duty := spec_duty api (d_slot (r_duty r)); r_script := r_script r |} else r)
+        :: spec_runs api (tl from) rs'
+  end.
+
+Definition P_b (k : case) : bool :=
+  let c := k_base k in
+  order_ok [] (length (c_runs c)) (c_trace c) &&
+  runs_ok (c_trace c) 0 (spec_runs (k_api k) (k_from k) (c_runs c)).
+
+(* observable part of a duty: slot, the rows (validator, committee index, position) as a multiset
+   -- the order of the rows inside a duty is not part of the property, and the attester model is run
+   on the rows in the order observed -- and the size of each of its own committees *)
+Fixpoint rows_of (vals comms poss : list N) : list (N * N * N) :=
+  match vals, comms, poss with
+  | v :: vs, c :: cs, p :: ps => (v, c, p) :: rows_of vs cs ps
+  | _, _, _ => []
+  end.
+
+Definition row_key (r : N * N * N) : N := (fst (fst r) * two64 + snd (fst r)) * two64 + snd r.
+
+Definition duty_rows (d : duty) : list (N * N * N) := sort_by row_key (rows_of (d_vals d) (d_comms d) (d_poss d)).
+
+Definition duty_eqb (a b : duty) : bool :=
+  (d_slot a =? d_slot b) &&
+  Nat.eqb (length (d_vals a)) (length (d_vals b)) && Nat.eqb (length (d_comms a)) (length (d_comms b)) &&
+  Nat.eqb (length (d_poss a)) (length (d_poss b)) &&
+  list_eqb (prod_eqb (prod_eqb N.eqb N.eqb) N.eqb) (duty_rows a) (duty_rows b) &&
+  forallb (fun c => size_of a c =? size_of b c) (d_comms a).
+
+(* a run "from the api" was given the merged duty of its slot *)
+Fixpoint from_ok (ds : list api_duty) (from : list bool) (rs : list run) : bool :=
+  match rs with
+  | [] => true
+  | r :: rs' =>
+      (if hd false from then
+         duty_eqb (match merged_at ds (d_slot (r_duty r)) with Some d => d | None => empty_duty (d_slot (r_duty r)) end)
+                  (r_duty r)
+       else true) && from_ok ds (tl from) rs'
+  end.
+
+(* the model of MergeDuties gives the observed duties, the runs from the api use them, and the
+   attester model run on them gives the observed calls *)
+Definition agree (k : case) : bool :=
+  list_eqb duty_eqb (merge_duties (k_api k)) (k_merged k) &&
+  from_ok (k_api k) (k_from k) (c_runs (k_base k)) &&
+  C01_Case.agree (k_base k).
+
+Definition mismatches (cs : list case) : list N := failing_ids (fun k => c_id (k_base k)) agree cs.
+Definition violations (cs : list case) : list N := failing_ids (fun k => c_id (k_base k)) P_b cs.
